@@ -24,7 +24,7 @@ TEXT = {
  "C14": "the model carries both caches; every_statement_keeps_the_caches_valid (invariant, for every statement), caches_valid_after_any_history, answers_never_stale (a cached answer equals the one computed from the current function alone, after any program), queries_change_no_function. Correspondence: histories interleaving scalar/vector layers (incl. undo, step-free and partly undefined receivers) with the 12 query kinds.",
  "C15": "side rule and mismatch-iff theorems for all binary operators (scalars on either side), mask/where/fillna by a function, one-operand operations, clip, layering, tuple shorthands (never a mismatch). Collection aggregation, cov/corr, shift and resample are covered by the complete shapes x sides grid of the correspondence check.",
  "C16": "binary_operators_respect_denotation, one_operand_operations_respect_denotation, materialisation_is_invisible: results depend only on the denoted functions and closed sides (for the minimal, well-formed objects the public API produces). Construction routes, scalar types and compositions are exercised by programs run in four provenance / materialisation / scalar-type variants each against the one model result.",
- "C17": "every program replayed in 7 domain types (int, float, naive datetime, tz-aware fixed/DST/UTC, timedelta) against the one model run; the generic-domain theorems (all of C01, C03-C05 are stated for every Ord D) carry the order-only part.",
+ "C17": "every theorem of C01-C07, C12, C15, C16 is stated for an arbitrary ordered domain (Ord D); relabelling by a strictly increasing map preserves well-formedness and commutes with evaluation and the binary operators; a change of unit / origin k -> a k + b (a > 0) is such a relabelling under which the integral and value sums scale by a while mean, the value distribution (ecdf, percentiles, median, hist probabilities) and var do not change. That pandas' int64 / datetime64 / tz-aware / Timedelta indexes are such images of one another (and that results come back as Timedeltas) is replayed on every run: each program is run in 7 domain flavours (int, float, naive datetime, tz-aware fixed / DST / UTC, timedelta) against the one model run.",
  "C18": "aggregation_is_pointwise (wf, minimal, side rule, pointwise reduce incl. NaN propagation), sum_is_folding_plus, aggregation_rejects_exactly_mixed_sides are theorems; element-wise StairsArray operators, sample/limit tables and cov/corr matrices are not modelled: the harness expands them into the per-member statements they must equal and compares (partial).",
  "C19": "cov / corr (signed square, no sqrt in the model): theorems pending; correspondence + oracle incl. symmetry, cov(f,f)=var, lag equivalence programs.",
  "C20": "shift_translates and diff_is_f_minus_shifted_f are theorems; rolling_mean (knots, window means, interpolation claim) is decided by correspondence + oracle only.",
